@@ -362,8 +362,12 @@ StepPick(P, S, fl, i) == IF S.stack = <<>> THEN Dispatch(P, S, fl, i) ELSE Exec(
 Step(P, S, fl) == StepPick(P, S, fl, IF S.sleepers = <<>> THEN 0 ELSE FirstAwake(S))
 Choices(S) == IF S.stack = <<>> /\ S.tasks = <<>> /\ S.cancels = <<>> /\ S.sleepers # <<>> THEN 1..Len(S.sleepers) ELSE {0}
 
+\* run to the end (16 steps per level of recursion: TLC's recursion is Java's)
+StepD(P, S, fl) == IF Done(S) THEN S ELSE Step(P, S, fl)
+Step4(P, S, fl) == StepD(P, StepD(P, StepD(P, StepD(P, S, fl), fl), fl), fl)
+Step16(P, S, fl) == Step4(P, Step4(P, Step4(P, Step4(P, S, fl), fl), fl), fl)
 RECURSIVE RunAll(_, _, _, _)
-RunAll(P, S, fl, fuel) == IF Done(S) \/ fuel = 0 THEN S ELSE RunAll(P, Step(P, S, fl), fl, fuel - 1)
+RunAll(P, S, fl, fuel) == IF Done(S) \/ fuel <= 0 THEN S ELSE RunAll(P, Step16(P, S, fl), fl, fuel - 16)
 
 \* ----------------------------------------------------------------------------- the statement
 \* plain assignments / definitions only ever reach the globals of the context the code belongs to (the file
